@@ -351,4 +351,20 @@ func (s *Script) Render(prefix int, goal Term, getValues []string) string {
 	return sb.String()
 }
 
+// RenderForValues is Render for model extraction: the body prefix of the obligation, plus the
+// symbol declarations (not the assumptions) made later, so that value queries may mention them.
+func (s *Script) RenderForValues(prefix int, goal Term, getValues []string) string {
+	saved := s.body
+	nb := append([]string(nil), s.body[:prefix]...)
+	for _, l := range s.body[prefix:] {
+		if strings.HasPrefix(l, "(declare-fun ") {
+			nb = append(nb, l)
+		}
+	}
+	s.body = nb
+	out := s.Render(len(nb), goal, getValues)
+	s.body = saved
+	return out
+}
+
 func pow2(k uint) *big.Int { return new(big.Int).Lsh(big.NewInt(1), k) }
